@@ -34,7 +34,11 @@ CONSTANTS MaxClock,    \* the abstract clock runs 1..MaxClock
           MaxLatch,    \* changes of the secure channel state
           FileSteps,   \* TRUE: the three file system calls of write_provision_state are separate steps
           QKinds,      \* subset of {"zero", "past", "exact", "future"}: instants a query may name
-          KKOps        \* subset of {"U", "R", "T"}: what the key keeper may do
+          KKOps,       \* subset of {"U", "R", "T"}: what the key keeper may do
+          Fix          \* {} = the code as it is.  Proposed repairs, to check them on the design:
+                       \*  "stale": set_provision_finished(true) of update_provision_state only takes effect (and the
+                       \*           status files are only written) if the flags are still ALL_READY inside the actor
+                       \*  "zero" : a finished tick of 0 (not finished) never satisfies a query
 
 VARIABLES flags, fin, clock, latch,      \* actor state, clock, key keeper secure channel latched?
           wpc, wloc, kkLeft, rdLeft, latchLeft,
@@ -145,12 +149,13 @@ TState(w) ==
 \* set_provision_finished(farg)  [actor: tick := now or 0]
 SetFin(w) ==
   /\ wpc[w] = "setfin"
-  /\ fin' = IF wloc[w].farg THEN clock ELSE 0
-  /\ timeupAt' = IF wloc[w].op = "T" THEN clock ELSE timeupAt
-  /\ owed' = IF wloc[w].op = "R" THEN 0
-             ELSE IF wloc[w].farg /\ ~KKInReset THEN clock ELSE owed
-  /\ wpc' = [wpc EXCEPT ![w] = IF wloc[w].op = "R" THEN Rest(w) ELSE "wstate"]
-  /\ wloc' = [wloc EXCEPT ![w] = IF wloc[w].op = "R" THEN LocIdle ELSE wloc[w]]
+  /\ LET applies == ~("stale" \in Fix) \/ wloc[w].op # "U" \/ flags = All IN
+       /\ fin' = IF ~applies THEN fin ELSE IF wloc[w].farg THEN clock ELSE 0
+       /\ timeupAt' = IF wloc[w].op = "T" THEN clock ELSE timeupAt
+       /\ owed' = IF wloc[w].op = "R" THEN 0
+                  ELSE IF applies /\ wloc[w].farg /\ ~KKInReset THEN clock ELSE owed
+       /\ wpc' = [wpc EXCEPT ![w] = IF wloc[w].op = "R" \/ ~applies THEN Rest(w) ELSE "wstate"]
+       /\ wloc' = [wloc EXCEPT ![w] = IF wloc[w].op = "R" \/ ~applies THEN LocIdle ELSE wloc[w]]
   /\ last' = [t |-> w, i |-> 0, a |-> "setfin", x |-> wloc[w].op]
   /\ UNCH_FILES /\ UNCH_ENV
   /\ UNCHANGED <<flags, kkLeft, rdLeft, qs, reported, everAllReady, timeupFired, allReadyAt>>
@@ -216,6 +221,7 @@ QTick(kind) == CASE kind = "zero"   -> {0}
                  [] kind = "past"   -> 1..clock
                  [] kind = "exact"  -> IF fin # 0 THEN {fin} ELSE {}
                  [] kind = "future" -> {Future}
+Reported(tick, q, lat) == (tick >= q /\ (tick # 0 \/ ~("zero" \in Fix))) \/ lat
 QFin(i) ==      \* get_provision_finished
   /\ qs[i].pc = "idle" /\ wpc["ls"] = "serving"
   /\ \E kind \in QKinds : \E q \in QTick(kind) :
@@ -234,7 +240,7 @@ QState(i) ==    \* get_state inside get_provision_failed_state_message
 QChan(i) ==     \* get_current_secure_channel_state; finished := tick >= q || latched
   /\ qs[i].pc = "qchan"
   /\ qs' = [qs EXCEPT ![i].pc = "done", ![i].lat = latch,
-                      ![i].finished = (qs[i].tick >= qs[i].q \/ latch)]
+                      ![i].finished = Reported(qs[i].tick, qs[i].q, latch)]
   /\ last' = [t |-> "q", i |-> i, a |-> "qchan", x |-> "-"]
   /\ UNCH_FILES /\ UNCH_ENV
   /\ UNCHANGED <<flags, fin, wpc, wloc, kkLeft, rdLeft, reported, everAllReady, timeupFired, allReadyAt,
@@ -254,7 +260,7 @@ TypeOK == /\ flags \subseteq All /\ fin \in 0..MaxClock /\ clock \in 1..MaxClock
 
 \* --- DESIGN: the implementation-level statements -------------------------------------------------
 FinishedOnlyAfter == fin # 0 => everAllReady \/ timeupFired
-Answer == \A i \in 1..NQ : qs[i].pc = "done" => (qs[i].finished <=> (qs[i].tick >= qs[i].q \/ qs[i].lat))
+Answer == \A i \in 1..NQ : qs[i].pc = "done" => (qs[i].finished <=> Reported(qs[i].tick, qs[i].q, qs[i].lat))
 \* the subsystems named are exactly those not ready at the linearization point of get_state, and the flags
 \* read there are what the subsystems last reported (no lost update)
 ErrorTextExact == \A i \in 1..NQ : qs[i].pc \in {"qchan", "done"} =>
